@@ -579,7 +579,9 @@ def check_identifier_paths(ctx):
     cases = [('a.b', ['a', 'b']), ('`a.b`.c', ['a.b', 'c']), ('A.B', ['A', 'B']), ('`x y`', ['x y']), ('a.`b.c`.d', ['a', 'b.c', 'd']), ('abc', ['abc']),
              ('`a`.`B c`', ['a', 'B c']), ('a1.$b', ['a1', '$b']),
              # a quoted part is a name whatever it spells: an operator character, a keyword, digits
-             ('`*`', ['*']), ('t.`*`', ['t', '*']), ('`select`', ['select']), ('`1`', ['1']), ("`a'b`.`-`", ["a'b", '-']), ('`NULL`.x', ['NULL', 'x'])]
+             ('`*`', ['*']), ('t.`*`', ['t', '*']), ('`select`', ['select']), ('`1`', ['1']), ("`a'b`.`-`", ["a'b", '-']), ('`NULL`.x', ['NULL', 'x']),
+             # blanks inside the quotes belong to the name (` a` and `a` are two different columns)
+             ('` a`', [' a']), ('`a `.b', ['a ', 'b']), ('t.` `', ['t', ' ']), ('`a\tb `', ['a\tb '])]
     from ..interp import Interp, Raised, Env
     for text, want in cases:
         try:
